@@ -17,6 +17,11 @@ import (
 //
 //	reset ro=<0|1> nosha=<0|1> load=<0|1> retry=<0|1> script=<hex> sha=<hex of sha1 hex>
 //	exec k=<hex,..|_> a=<hex,..|_> srv=<reply;reply;..|_>      answers of successive c.Do calls
+//	     [sim=<known 0|1>:<fault,fault,..>:<resend>]           the answers came from the simulated script
+//	         cache (srv= then lists what each c.Do finally returned); fault per server-side command:
+//	         0 none, 1 lost before the server saw it, 2 executed but the reply was lost; resend > 0:
+//	         the client re-sends retryable-tagged commands after a transport error (retries enabled)
+//	!exec runs=<n> resend=<r>                                  oracle: body executions of one Exec
 //	multi nodes=<reply;..|_> m=<k,k/a,a|k/a|..|_> srv=<reply;..|_>
 //	conc n=<n> fail=<k>                                        n concurrent first calls
 //	!trace log=<KIND.class,..|_> runs=<n|->                    oracle: spec on the observed log
@@ -24,7 +29,7 @@ import (
 //	!multifail n=<len(multi)>                                  oracle: failed SCRIPT LOAD => n errors, nothing sent
 func init() {
 	suites["luaexec"] = suite{
-		rule: "episodes = one *Lua (every public constructor x WithLoadSHA1) followed by Exec/ExecMulti calls; exhaustive: 9 constructors x 7^3 reply scripts x 2 calls; random: scripted replies (strings, ints, nil, NOSCRIPT / ERR NOSCRIPT / other errors, transport errors, empty/foreign SHA) and a simulated script cache with lost replies and cache flushes; non-trivial = distinct exec/multi line that sent at least one command",
+		rule: "episodes = one *Lua (every public constructor x WithLoadSHA1) followed by Exec/ExecMulti calls; exhaustive: 9 constructors x 7^3 reply scripts x 2 calls; random: scripted replies (strings, ints, nil, NOSCRIPT / ERR NOSCRIPT / other errors, transport errors, empty/foreign SHA) a simulated script cache (counts body executions) with every 4-step schedule of lost requests / lost replies x cache state x client retries on/off (re-sending retryable-tagged commands), random longer schedules and cache flushes; non-trivial = distinct exec/multi line that sent at least one command",
 		run:  runLua,
 		replay: func(c *Ctx, lines []string) {
 			ep := &luaEp{}
@@ -32,13 +37,14 @@ func init() {
 				if strings.HasPrefix(l, "!") {
 					continue // oracle lines are re-derived from the real run
 				}
-				ep.op(c, l, nil)
+				ep.op(c, l)
 			}
 		},
 	}
 }
 
 type luaEp struct {
+	simKnown               bool // script-cache state of the simulated server after the last sim exec
 	lua                    *rueidis.Lua
 	ro, nosha, load, retry bool
 	script, sha            string
@@ -146,8 +152,20 @@ func parseReplies(s string) []reply {
 
 // op executes one ordinary op line. sim != nil: answers come from the simulated server and the
 // srv= field of the emitted line is filled in with the answers it actually gave.
-func (e *luaEp) op(c *Ctx, line string, sim *luaSim) {
+func (e *luaEp) op(c *Ctx, line string) {
 	ws := strings.Fields(line)
+	var sim *luaSim
+	resend := 0
+	simField := optField(ws, "sim", "")
+	if simField != "" {
+		parts := strings.Split(simField, ":")
+		sim = &luaSim{sha: sha1hex(e.script), known: parts[0] == "1"}
+		for _, w := range splitList(parts[1], ",") {
+			n, _ := strconv.Atoi(w)
+			sim.faults = append(sim.faults, n)
+		}
+		resend, _ = strconv.Atoi(parts[2])
+	}
 	switch ws[0] {
 	case "reset":
 		e.ro, e.nosha, e.load, e.retry = field(ws, "ro") == "1", field(ws, "nosha") == "1", field(ws, "load") == "1", field(ws, "retry") == "1"
@@ -158,14 +176,15 @@ func (e *luaEp) op(c *Ctx, line string, sim *luaSim) {
 		c.Emit(e.resetLine(), "ok", false)
 	case "exec":
 		keys, args := unhxList(field(ws, "k")), unhxList(field(ws, "a"))
-		var given []reply
+		var scripted []reply
 		var f *fake
 		runs0 := 0
 		if sim != nil {
 			runs0 = sim.runs
-			f = newFake(func(argv []string) reply { r := sim.answer(argv); given = append(given, r); return r })
+			f = newFake(sim.answer)
+			f.resend = resend
 		} else {
-			f = newFake(scriptedAnswer(parseReplies(field(ws, "srv")), &given))
+			f = newFake(scriptedAnswer(parseReplies(field(ws, "srv")), &scripted))
 		}
 		ans := func() (ans string) {
 			defer func() {
@@ -176,11 +195,16 @@ func (e *luaEp) op(c *Ctx, line string, sim *luaSim) {
 			res := e.lua.Exec(context.Background(), f, keys, args)
 			return "log=" + logString(f.log) + " res=" + canonRes(res)
 		}()
+		given := f.final // what each c.Do finally returned
 		srv := field(ws, "srv")
 		if sim != nil {
 			srv = repliesString(given)
 		}
 		op := fmt.Sprintf("exec k=%s a=%s srv=%s", hxList(keys), hxList(args), srv)
+		if sim != nil {
+			op += " sim=" + simField
+			e.simKnown = sim.known
+		}
 		c.Emit(op, ans, len(f.log) > 0)
 		// oracle line: the observed log, classified
 		evs, bodies := []string{}, 0
@@ -197,13 +221,23 @@ func (e *luaEp) op(c *Ctx, line string, sim *luaSim) {
 		runs := "-"
 		if sim != nil {
 			bodies = sim.runs - runs0
-			runs = strconv.Itoa(bodies)
-			c.Hit("sim-runs:" + runs)
+			c.Hit(fmt.Sprintf("sim-runs:%d:resend=%d", bodies, min(resend, 1)))
+			if f.wire > len(given) {
+				c.Hit("sim-resent-commands")
+			}
+			if resend == 0 {
+				runs = strconv.Itoa(bodies)
+			}
 		}
 		tl := fmt.Sprintf("!trace log=%s runs=%s", joinList(evs, ","), runs)
 		c.Emit(tl, "ok", false)
-		if bodies > 1 {
-			c.Fail("lua:body-ran-twice", op, fmt.Sprintf("the simulated server ran the script body %d times during one Exec", bodies))
+		if sim != nil {
+			// oracle: the server ran the body at most once for this Exec; with a re-sending client
+			// more than once is acceptable only for read-only scripts and the *Retryable constructors
+			c.Emit(fmt.Sprintf("!exec runs=%d resend=%d", bodies, resend), "ok", false)
+			if bodies > 1 && !(resend > 0 && (e.ro || e.retry)) {
+				c.Fail("lua:body-executed-twice", op, fmt.Sprintf("the simulated server ran the script body %d times during one Exec of a script that is neither read-only nor retryable (resend=%d)", bodies, resend))
+			}
 		}
 	case "multi":
 		nodeReplies := parseReplies(field(ws, "nodes"))
@@ -355,7 +389,7 @@ func runLua(c *Ctx) {
 	scripts := []string{"return 1", "return redis.call('GET', KEYS[1])", "", "return {KEYS[1],ARGV[1]} -- \x00\xff"}
 	start := func(cfg [4]bool, script string) *luaEp {
 		e := &luaEp{ro: cfg[0], nosha: cfg[1], load: cfg[2], retry: cfg[3], script: script}
-		e.op(c, e.resetLine(), nil)
+		e.op(c, e.resetLine())
 		return e
 	}
 	// ---- exhaustive: constructor x three scripted answers x two calls
@@ -370,8 +404,20 @@ func runLua(c *Ctx) {
 				for _, r2 := range alpha {
 					e := start(cfg, scripts[0])
 					srv := repliesString([]reply{r0, r1, r2})
-					e.op(c, "exec k=6b a=61 srv="+srv, nil)
-					e.op(c, "exec k=_ a=_ srv="+srv, nil)
+					e.op(c, "exec k=6b a=61 srv="+srv)
+					e.op(c, "exec k=_ a=_ srv="+srv)
+				}
+			}
+		}
+	}
+	// ---- simulated script cache, every fault schedule of length 4 x cache state x client retries
+	for _, cfg := range luaConfigs {
+		for known := 0; known < 2; known++ {
+			for _, rs := range []int{0, 2} {
+				for fsq := 0; fsq < 81; fsq++ {
+					e := start(cfg, scripts[1])
+					fs := fmt.Sprintf("%d,%d,%d,%d", fsq/27%3, fsq/9%3, fsq/3%3, fsq%3)
+					e.op(c, fmt.Sprintf("exec k=6b a=_ srv=_ sim=%d:%s:%d", known, fs, rs))
 				}
 			}
 		}
@@ -425,14 +471,16 @@ func runLua(c *Ctx) {
 		cfg := luaConfigs[c.Rng.IntN(len(luaConfigs))]
 		script := scripts[c.Rng.IntN(len(scripts))]
 		e := start(cfg, script)
-		var sim *luaSim
+		useSim := c.Rng.IntN(2) == 0
+		e.simKnown = c.Rng.IntN(2) == 0
+		simResend := 0
 		if c.Rng.IntN(2) == 0 {
-			sim = &luaSim{sha: sha1hex(script), known: c.Rng.IntN(2) == 0}
+			simResend = 1 + c.Rng.IntN(2)
 		}
 		nops := 1 + c.Rng.IntN(5)
 		for j := 0; j < nops; j++ {
-			if sim != nil && c.Rng.IntN(4) == 0 {
-				sim.known = false // SCRIPT FLUSH / failover between calls
+			if useSim && c.Rng.IntN(4) == 0 {
+				e.simKnown = false // SCRIPT FLUSH / failover between calls
 			}
 			if c.Rng.IntN(4) == 0 {
 				// ExecMulti
@@ -468,19 +516,22 @@ func runLua(c *Ctx) {
 				if nm > 0 && c.Rng.IntN(8) == 0 {
 					rs = rs[:nm-1]
 				}
-				e.op(c, fmt.Sprintf("multi nodes=%s m=%s srv=%s", repliesString(nrs), joinList(ms, "|"), repliesString(rs)), nil)
+				e.op(c, fmt.Sprintf("multi nodes=%s m=%s srv=%s", repliesString(nrs), joinList(ms, "|"), repliesString(rs)))
 				continue
 			}
 			keys, args := randList(3), randList(3)
-			if sim != nil {
-				sim.faults = []int{c.Rng.IntN(6) / 4 * (1 + c.Rng.IntN(2)), c.Rng.IntN(6) / 4 * (1 + c.Rng.IntN(2)), c.Rng.IntN(6) / 4 * (1 + c.Rng.IntN(2))}
-				e.op(c, fmt.Sprintf("exec k=%s a=%s srv=_", hxList(keys), hxList(args)), sim)
+			if useSim {
+				fs := make([]string, 9)
+				for q := range fs {
+					fs[q] = strconv.Itoa(c.Rng.IntN(6) / 4 * (1 + c.Rng.IntN(2)))
+				}
+				e.op(c, fmt.Sprintf("exec k=%s a=%s srv=_ sim=%s:%s:%d", hxList(keys), hxList(args), b2s(e.simKnown), strings.Join(fs, ","), simResend))
 			} else {
 				rs := []reply{randReply(script), randReply(script), randReply(script)}
 				if cfg[2] && j == 0 && c.Rng.IntN(2) == 0 {
 					rs[0] = reply{kind: 's', text: sha1hex(script)}
 				}
-				e.op(c, fmt.Sprintf("exec k=%s a=%s srv=%s", hxList(keys), hxList(args), repliesString(rs[:c.Rng.IntN(4)])), nil)
+				e.op(c, fmt.Sprintf("exec k=%s a=%s srv=%s", hxList(keys), hxList(args), repliesString(rs[:c.Rng.IntN(4)])))
 			}
 		}
 	}
@@ -489,7 +540,7 @@ func runLua(c *Ctx) {
 	ns := []int{1, 2, 3, 8, 32}
 	for _, n := range ns {
 		for _, fail := range []int{0, 1, 2, 5, 40} {
-			e.op(c, fmt.Sprintf("conc n=%d fail=%d", n, fail), nil)
+			e.op(c, fmt.Sprintf("conc n=%d fail=%d", n, fail))
 		}
 	}
 }
